@@ -855,7 +855,8 @@ def stream_ppoints(ctx, ncases):
                 cols.append([round((lon0 + i * dlon) * 64) / 64 + 360.0 * kshift for i in range(npts)])
         via = rng.choice(["dataarray", "dataset", "dataset"])
         indep = "time" if with_time else rng.choice(["latitude", "longitude"])
-        pdict = {vname: [360.0, 360.0]} if angular else None
+        # (period, discontinuity): the direction convention (360, 360) and the longitude convention (360, 180)
+        pdict = {vname: [360.0, rng.choice([360.0, 180.0])]} if angular else None
         case = {"op": "points", "via": via, "variable": vname, "independent": indep,
                 "points": [[names[i], B.tgt(kinds[i], cols[i])] for i in range(len(names))],
                 "periodic_coordinates": {"longitude": 360.0}, "periodic_data": pdict,
